@@ -339,7 +339,10 @@ class MuxSocketTransportSink(ClientMessageSink):
       The ClientChannelSinkStack associated with the tag's response.
     """
     tup = self._tag_map.pop(tag, None)
-    self._tag_pool.release(tag)
+    if tup:
+      # Only tags that were actually leased go back to the pool, the peer may
+      # send frames with tags we never issued (or the reserved ones).
+      self._tag_pool.release(tag)
     return tup
 
   @abstractmethod
